@@ -5,6 +5,8 @@
 //     ECDH bytes recomputed with crypto/ecdh                                  -> CFill cases
 //  3. scripted histories through the REAL (*Session).session() and handle()
 //     over an in-memory conn with fault injection                             -> CHist cases
+//  4. a re-key while a channel is open, by driving the bodies of the four channel
+//     loops one Packet at a time                                              -> oracle only
 //
 // Go-side oracle (the property, evaluated on the implementation): the cipher is an involution
 // and keeps the length; both ends hold the same share after every completed handshake /
@@ -202,8 +204,9 @@ func randShare() data.SharedKeys {
 }
 
 var (
-	lenHist   = map[int]int{}
-	pairCount int
+	lenHist        = map[int]int{}
+	pairCount      int
+	shortInHistory int
 )
 
 // doPair: both ends derive the share from (aPriv, bPub) and (bPriv, aPub), starting from the
@@ -326,9 +329,9 @@ func shortPair(bPub data.PublicKey, maxIter int) (data.PrivateKey, data.PublicKe
 }
 
 func genPairs(thorough bool) {
-	n := 60
+	n := 130
 	if thorough {
-		n = 1500
+		n = 2500
 	}
 	for i := 0; i < n; i++ {
 		aP, aPub := freshPair()
@@ -342,9 +345,9 @@ func genPairs(thorough bool) {
 		}
 	}
 	// forced short secrets: stale tail
-	ns := 6
+	ns := 10
 	if thorough {
-		ns = 120
+		ns = 150
 	}
 	found := 0
 	for i := 0; i < ns; i++ {
@@ -441,11 +444,12 @@ func (r *keyReg) id(p data.PrivateKey) int {
 }
 
 type round struct {
-	Kind   string `json:"kind"`  // connect | data | rekey | batch
-	P      []int  `json:"p"`     // client payload
-	Q      []int  `json:"q"`     // server payload
-	Fault  string `json:"fault"` // "" | write | lost-before | lost-after
+	Kind   string `json:"kind"`   // connect | data | rekey | batch
+	P      []int  `json:"p"`      // client payload
+	Q      []int  `json:"q"`      // server payload
+	Fault  string `json:"fault"`  // "" | write | lost-before | lost-after
 	Forget int    `json:"forget"` // 0 no, 1 server forgets the session, 2 and restarts with a new key pair
+	Short  bool   `json:"short"`  // re-key: redraw the announced pair until the ECDH secret is shorter than the share
 }
 
 type world struct {
@@ -456,6 +460,7 @@ type world struct {
 	reg      *keyReg
 	srvIdx   int
 	taint    string // the known-finding shape this history has entered ("" = none)
+	leftover []int  // payload of a data Packet that stayed queued behind a re-key announcement
 	oldShare *data.SharedKeys
 	hist     []round
 	terms    []string
@@ -503,13 +508,49 @@ func (w *world) fail(what, kind string) {
 	out.Fail(what, key, map[string]interface{}{"history": w.hist, "finding_shape": w.taint})
 }
 
-// do executes one round on the real code and appends `(events, observation)` for the model.
+// do executes one round: one exchange, plus a second one when a data Packet stayed queued
+// behind a re-key announcement (next() sends a Packet that carries key material alone).
 func (w *world) do(r round) {
+	w.leftover = nil
+	w.exchange(r)
+	if w.leftover != nil && w.cli != nil {
+		w.exchange(round{Kind: "flush", P: w.leftover})
+	}
+	w.leftover = nil
+}
+
+// drawRekey calls the real keyNextSync until it announces a pair (and, for short, until the ECDH
+// secret of that pair with the server key is shorter than the share: about 1 in 512 draws; the
+// rejected draws are cancelled with the real keyCheckRevert).
+func (w *world) drawRekey(short bool) (*com.Packet, int) {
+	for i := 0; i < 20000; i++ {
+		n := c2.VerifC06KeyNextSync(w.cli, 100000)
+		if n == nil {
+			return nil, 0
+		}
+		_, _, _, nx := c2.VerifC06Keys(w.cli)
+		if short {
+			spub, _, _, _ := c2.VerifC06Keys(w.cli) // keys.Public of the client = the server public
+			x, err := ecdhBytes(nx.Private, spub)
+			if err != nil || len(x) >= 65 {
+				c2.VerifC06KeyCheckRevert(w.cli)
+				continue
+			}
+			shortInHistory++
+		}
+		return n, w.reg.id(nx.Private)
+	}
+	return nil, 0
+}
+
+// exchange executes one exchange on the real code and appends `(events, observation)` for the model.
+func (w *world) exchange(r round) {
 	var (
 		ev        []string
 		p, q      = toBytes(r.P), toBytes(r.Q)
 		connect   = r.Kind == "connect"
-		helloNext = !connect && w.cli != nil && c2.VerifC06QueueLen(w.cli) > 0 // a re-register hello is queued
+		flush     = r.Kind == "flush"
+		helloNext = !connect && !flush && w.cli != nil && c2.VerifC06QueueLen(w.cli) > 0 // a re-register hello is queued
 	)
 	if connect {
 		if c2.VerifC06ServerSession(w.l, w.id) != nil {
@@ -536,6 +577,9 @@ func (w *world) do(r round) {
 	if !regBefore {
 		q, r.Q = nil, nil
 	}
+	if r.Kind == "batch" && (!regBefore || len(p) == 0 || helloNext) {
+		r.Kind = "data"
+	}
 	rekeyed := false
 	switch {
 	case connect, helloNext:
@@ -543,25 +587,24 @@ func (w *world) do(r round) {
 		if helloNext {
 			r.Kind = "hello"
 		}
+	case flush:
+		// nothing is queued: session() picks the Packet that stayed behind the announcement
+		ev = append(ev, fmt.Sprintf("DataSend %s", vh.Bytes(p)))
 	case r.Kind == "rekey":
 		p, r.P = nil, nil
-		n := c2.VerifC06KeyNextSync(w.cli, 100000)
-		k := 0
+		n, k := w.drawRekey(r.Short && regBefore)
 		if n != nil {
-			_, _, _, nx := c2.VerifC06Keys(w.cli)
-			k = w.reg.id(nx.Private)
 			rekeyed = true
 			c2.VerifC06Queue(w.cli, n)
 		} else {
 			c2.VerifC06Queue(w.cli, &com.Packet{Device: w.id})
 		}
 		ev = append(ev, fmt.Sprintf("RekeySend %d", k))
-	case r.Kind == "batch" && len(p) > 0:
-		n := c2.VerifC06KeyNextSync(w.cli, 100000)
-		k := 0
+	case r.Kind == "batch":
+		// the state the race in next() produces: pick() returned the announcement (the queue was
+		// empty), a concurrent Session.Write queued a data Packet before next() looked at the queue
+		n, k := w.drawRekey(false)
 		if n != nil {
-			_, _, _, nx := c2.VerifC06Keys(w.cli)
-			k = w.reg.id(nx.Private)
 			rekeyed = true
 			c2.VerifC06Queue(w.cli, n)
 		}
@@ -618,6 +661,10 @@ func (w *world) do(r round) {
 		w.cli = nil
 		return
 	}
+	if r.Kind == "batch" && c2.VerifC06QueueLen(w.cli) > 0 {
+		w.leftover = r.P // the data Packet was not merged with the announcement: it goes out next
+		p = nil
+	}
 	// ---- events for the model
 	_, cpriv, cshare, cnext := c2.VerifC06Keys(w.cli)
 	if connect {
@@ -655,17 +702,18 @@ func (w *world) do(r round) {
 	pending := cnext != nil
 	switch {
 	case (r.Kind == "rekey" || r.Kind == "batch") && rekeyed && r.Fault == "lost-after" && pending:
-		w.taint = "rekey-reply-lost"
+		w.taint = "rekey-reply-lost-after-server-processed"
 	case rekeyed && r.Fault == "lost-before" && pending:
-		w.taint = "rekey-announcement-undelivered"
+		w.taint = "rekey-announcement-lost"
 		s := shareBefore
 		w.oldShare = &s
-	case r.Kind == "batch" && rekeyed && r.Fault == "":
-		w.taint = "rekey-batched-in-multi"
+	case r.Kind == "batch" && rekeyed && r.Fault == "" && w.leftover == nil:
+		// only next() before its fix: the announcement travelled inside a Multi container
+		w.taint = "rekey-merged-into-batch"
 		s := shareBefore
 		w.oldShare = &s
 	case nextBefore != nil && pending && strings.HasPrefix(r.Fault, "lost") && w.taint == "":
-		w.taint = "rekey-reply-lost"
+		w.taint = "rekey-reply-lost-after-server-processed"
 	case r.Kind == "hello" && r.Fault == "lost-after":
 		w.taint = "reregister-reply-lost"
 	}
@@ -749,13 +797,20 @@ func corpus() {
 		rd("rekey", "", "", ""), rd("rekey", "", "", ""), rd("data", "", "after-3-rekeys", "y")}, "hist-corpus")
 	// a failed write reverts
 	runHistory([]round{c, rd("rekey", "write", "", ""), rd("data", "", "secret-payload", "server-task"), rd("rekey", "", "", ""), rd("data", "", "p2", "q2")}, "hist-corpus")
-	// KNOWN FINDING rekey-reply-lost: the server processed the announcement, the reply was lost
+	// KNOWN FINDING rekey-reply-lost-after-server-processed: the server processed the announcement, the reply was lost
 	runHistory([]round{c, rd("data", "", "before", "b"), rd("rekey", "lost-after", "", ""), rd("data", "", "secret-payload", "server-task"), rd("data", "", "healed", "h")}, "hist-finding-reply-lost")
-	// KNOWN FINDING rekey-announcement-undelivered: the write succeeded locally, nothing arrived
+	// KNOWN FINDING rekey-announcement-lost: the write succeeded locally, nothing arrived
 	runHistory([]round{c, rd("rekey", "lost-before", "", ""), rd("data", "", "secret-payload", "server-task"), rd("data", "", "still-garbled", "g"),
-		rd("rekey", "", "", ""), rd("data", "", "for-good", "f")}, "hist-finding-undelivered")
-	// KNOWN FINDING rekey-batched-in-multi
-	runHistory([]round{c, rd("batch", "", "queued-with-rekey", "q"), rd("data", "", "secret-payload", "server-task")}, "hist-finding-batched")
+		rd("rekey", "", "", ""), rd("data", "", "for-good", "f")}, "hist-finding-announcement-lost")
+	// FIXED rekey-merged-into-batch: a data Packet queued behind the announcement (the race in next());
+	// the announcement now travels alone, the data Packet follows in the next exchange
+	runHistory([]round{c, rd("batch", "", "queued-with-rekey", "q"), rd("data", "", "secret-payload", "server-task"),
+		rd("batch", "write", "queued-with-failing-rekey", ""), rd("data", "", "p3", "q3"), rd("batch", "", "again", "z"), rd("batch", "", "and-again", "")}, "hist-corpus-queued-behind-rekey")
+	// re-keys whose ECDH secret is shorter than the share (leading zero bytes): the tail of the previous share stays on both ends
+	sr := rd("rekey", "", "", "during-short-rekey")
+	sr.Short = true
+	runHistory([]round{c, rd("data", "", "secret-payload", "server-task"), sr, rd("data", "", "after-short-rekey", "x"), rd("rekey", "", "", ""), rd("data", "", "p", "q")}, "hist-short-secret")
+	runHistory([]round{c, sr, sr, rd("data", "", "after-two-short-rekeys", "x"), rd("rekey", "write", "", ""), sr, rd("data", "", "p", "q")}, "hist-short-secret")
 	// re-registration: the server forgets, the client is told to register again
 	f := rd("data", "", "lost-on-the-floor", "")
 	f.Forget = 1
@@ -825,13 +880,114 @@ func genHistories(thorough bool) {
 	}
 }
 
+// ---------------------------------------------------------------- 4. re-key inside a channel (oracle only)
+
+// genChannel drives the bodies of the four channel loops (client channelWrite/channelRead, server
+// conn.channelRead/channelWrite) one Packet at a time, in the order of the source.  In a channel
+// an idle client tick (pickWait) may draw a re-key exactly like pick() does; the client swaps right
+// after the write, the server Session regenerates in notify(), but the connection keeps using
+// conn.keys, the copy taken when the connection was accepted.  Not modelled in Coq: oracle only.
+func genChannel(n int) {
+	for it := 0; it < n; it++ {
+		var sk data.KeyPair
+		sk.Fill()
+		w := &world{id: newID(), cm: new(c2.VerifC06Mux), sm: new(c2.VerifC06Mux), reg: &keyReg{idx: map[data.PrivateKey]int{}}, classes: map[string]bool{}}
+		w.l = c2.VerifC06Listener(sk, w.sm)
+		w.srvIdx = w.reg.id(sk.Private)
+		w.do(round{Kind: "connect"})
+		w.do(rd("data", "", "before-channel", "b"))
+		ss := c2.VerifC06ServerSession(w.l, w.id)
+		if w.cli == nil || ss == nil {
+			out.Fail("channel scenario: the handshake did not complete", "channel-setup", nil)
+			return
+		}
+		cc, err := c2.VerifC06ChanOpen(w.l, ss)
+		if err != nil {
+			out.Fail("channel scenario: resolve failed: "+err.Error(), "channel-setup", nil)
+			return
+		}
+		rekeyAt := 1 + rng.Intn(3)
+		var steps []map[string]interface{}
+		rekeyed := false
+		bad := ""
+		up := func(n *com.Packet) error {
+			c2.VerifC06Queue(w.cli, n)
+			x := &fconn{}
+			if err := c2.VerifC06ChanClientWrite(w.cli, x); err != nil {
+				return err
+			}
+			return c2.VerifC06ChanServerRead(w.l, cc, &fconn{rbuf: x.wbuf, triggered: true})
+		}
+		down := func(n *com.Packet) error {
+			c2.VerifC06Queue(ss, n)
+			x := &fconn{}
+			if err := c2.VerifC06ChanServerWrite(w.l, cc, x); err != nil {
+				return err
+			}
+			return c2.VerifC06ChanClientRead(w.cli, &fconn{rbuf: x.wbuf, triggered: true})
+		}
+		for i := 0; i < 5 && bad == ""; i++ {
+			if i == rekeyAt {
+				// pickWait: `if n := s.keyNextSync(); n != nil { s.send <- n }`
+				n := c2.VerifC06KeyNextSync(w.cli, 100000)
+				if n == nil {
+					out.Fail("channel scenario: keyNextSync refused", "channel-setup", nil)
+					return
+				}
+				if err := up(n); err != nil {
+					out.Fail("channel scenario: re-key Packet failed: "+err.Error(), "channel-setup", nil)
+					return
+				}
+				rekeyed = true
+				_, _, cs, cn := c2.VerifC06Keys(w.cli)
+				_, _, ssh, _ := c2.VerifC06Keys(ss)
+				steps = append(steps, map[string]interface{}{"step": "re-key in channel", "client_swapped": cn == nil, "sessions_agree": cs == ssh, "conn_copy_is_current": cc.VerifC06ChanConnShare() == ssh})
+				if cn != nil || cs != ssh {
+					bad = "after a re-key inside a channel the two Sessions hold different shares"
+				}
+				continue
+			}
+			p, q := rng.Bytes(1+rng.Intn(100)), rng.Bytes(1+rng.Intn(100))
+			d := &com.Packet{ID: idClientData, Device: w.id, Job: uint16(2 + rng.Intn(60000))}
+			d.Write(p)
+			e1 := up(d)
+			e := &com.Packet{ID: idServerData, Device: w.id, Job: uint16(2 + rng.Intn(60000))}
+			e.Write(q)
+			e2 := down(e)
+			cg, cgi := w.cm.VerifC06Take()
+			sg, sgi := w.sm.VerifC06Take()
+			cgot, sgot := only(cg, cgi, idServerData), only(sg, sgi, idClientData)
+			okUp := e1 == nil && len(sgot) == 1 && bytes.Equal(sgot[0], p)
+			okDown := e2 == nil && len(cgot) == 1 && bytes.Equal(cgot[0], q)
+			steps = append(steps, map[string]interface{}{"step": "data both ways", "after_rekey": rekeyed, "server_saw_client_payload": okUp, "client_saw_server_payload": okDown})
+			if !okUp || !okDown {
+				bad = "a payload sent inside a channel did not arrive unchanged"
+			}
+		}
+		key := "channel-no-rekey"
+		if rekeyed {
+			key = "rekey-during-channel"
+		}
+		desc := map[string]interface{}{"scenario": "connect; data; channel opened; data both ways until step rekey_at; re-key drawn by the idle tick; data both ways", "rekey_at": rekeyAt, "steps": steps}
+		out.Count("channel-rekey", fmt.Sprintf("rekey-at-%d", rekeyAt), true)
+		if bad != "" {
+			out.Fail(bad+" (the server connection keeps decrypting and encrypting with conn.keys, the copy taken before the re-key)", key, desc)
+		}
+		// the channel ends; the next ordinary exchange takes a fresh copy and works again
+		if w.taint == "" {
+			w.do(rd("data", "", "after-channel", "a"))
+		}
+	}
+}
+
 func main() {
 	fl := vh.ParseFlags()
 	out = vh.NewOut("C06", fl, "From XMT Require Import Base.Prelude Model.Keys.", "case", "check",
 		"XorOp/KeyCrypt on buffers of length 0..300 (grid around 65/130/195) with shares and keys of length 0..69; real P-521 pairs through "+
 			"Fill/FillPublic/FillPrivate/Sync/fillShared on both roles from zero, patterned and random previous shares, incl. forced short secrets; "+
-			"histories (connect, data, re-key, batched re-key, write fault, reply lost before/after the server, server forgets/restarts) through the real "+
-			"session()/handle(); distinct = distinct Coq case term; non-trivial = non-empty buffer and key / any pair / a history with a re-key or re-registration")
+			"histories (connect, data, re-key, re-key with a data Packet queued behind it, re-keys redrawn until the ECDH secret is short, write fault, reply lost "+
+			"before/after the server, server forgets/restarts) through the real session()/handle(); re-key inside a channel (oracle only); "+
+			"distinct = distinct Coq case term; non-trivial = non-empty buffer and key / any pair / a history with a re-key or re-registration")
 	out.ShardSize = 40
 	rng = vh.NewRand(fl.Seed)
 	thorough := fl.Tier == "thorough"
@@ -841,8 +997,14 @@ func main() {
 	genPairs(thorough)
 	t2 := time.Now()
 	genXor(thorough)
+	nc := 3
+	if thorough {
+		nc = 40
+	}
+	genChannel(nc)
 	out.Extra("ecdh_x_length_histogram", lenHist)
 	out.Extra("pairs", pairCount)
+	out.Extra("short_secrets_forced_inside_histories", shortInHistory)
 	out.Extra("seconds_histories_pairs_xor", []float64{t1.Sub(t0).Seconds(), t2.Sub(t1).Seconds(), time.Since(t2).Seconds()})
 	out.Finish()
 }
